@@ -7,7 +7,8 @@
    nodes) and [Rep h g] says that h and g hold the same node map, the same multiset of links, the same root. *)
 From Coq Require Import List Bool Arith ZArith Permutation.
 Import ListNotations.
-From HV Require Import lib.PyDict lib.Harness model.BiMapM model.Graph spec.GraphS proofs.GraphP proofs.GraphInvP.
+From HV Require Import lib.PyDict lib.Harness model.BiMapM model.Graph spec.GraphS proofs.GraphP proofs.GraphInvP
+     proofs.InsertP.
 
 Section C04.
   Context {Op Meta : Type}.
@@ -29,10 +30,22 @@ Section C04.
     end.
   Proof. exact bstep_refines. Qed.
 
-  (* store_inv_reachable / store_refines_spec for all finite histories of add_node / add_const / add_link /
-     add_order_link / delete_link / delete_node.  PARTIAL: histories containing insert_hugr are not covered
-     by this theorem (insert_hugr is a composition of add_node / add_link calls plus an overwrite of the copied
-     children lists; that step is monitored by run/C04Run.v and run/C08Run.v, not proved). *)
+  (* store_inv_reachable, in full: after every finite history of add_node / add_const / add_link / add_order_link /
+     delete_link / delete_node / insert_hugr calls inside the guard ([guarded]: live node arguments, offsets >= -1,
+     non-root leaf deletion, insertion of a HUGR itself built inside the guard under a live parent) every call
+     returned normally and the invariant holds (with well-foundedness of the hierarchy) *)
+  Theorem C04_store_inv_reachable : forall (o : Op) (m : Meta) cs,
+    guarded (init o m) cs -> Inv (run (init o m) cs) /\ WF (run (init o m) cs).
+  Proof. exact store_inv_reachable. Qed.
+  Theorem C04_step_inside_guard_returns : forall (h : hugr) c, Inv h -> WF h -> guarded1 h c ->
+    snd (step h c) = Ok /\ Inv (fst (fst (step h c))) /\ WF (fst (fst (step h c))).
+  Proof. exact step_inv. Qed.
+
+  (* store_refines_spec for all finite histories of add_node / add_const / add_link /
+     add_order_link / delete_link / delete_node.  PARTIAL: the refinement to the sequential specification is proved for
+     histories without insert_hugr; for an insert_hugr step the new state is characterised node by node and link
+     by link by C08_insert_iso_and_frame (props/C08.v) and the invariant by C04_store_inv_reachable above, but
+     [Rep A' (s_insert ...)] against the specification's own insertion is monitored (run/C04Run.v), not proved. *)
   Theorem C04_store_inv_reachable_and_refines_spec_partial : forall (o : Op) (m : Meta) cs g',
     s_brun (s_init 0 o m) (trace (init o m) cs) = Next g' ->
     Inv (brun (init o m) cs) /\ Rep (brun (init o m) cs) g'.
@@ -141,6 +154,8 @@ Example C04_premises_satisfiable :
 Proof. eexists. split; vm_compute; reflexivity. Qed.
 
 Print Assumptions C04_init.
+Print Assumptions C04_store_inv_reachable.
+Print Assumptions C04_step_inside_guard_returns.
 Print Assumptions C04_step_refines.
 Print Assumptions C04_store_inv_reachable_and_refines_spec_partial.
 Print Assumptions C04_spec_never_rejects_partial.
